@@ -19,8 +19,9 @@ from . import c08_gen
 from .c08_gen import regenerate      # setup.sh regenerates Gen/MasksGen.v through this name
 
 
-def _adv_fill(torch, rng, p, mode):
-    """fill a NAS parameter tensor in place with adversarial values"""
+def _adv_fill(torch, rng, p, mode, via='copy_'):
+    """fill a NAS parameter tensor in place with adversarial values; via: how the values are written (copy_ under no_grad,
+    or through .data as in the usual clip / threshold idiom, which does not bump the tensor's version counter)"""
     n = p.numel()
     if mode == 'zero':
         vals = [0.0] * n
@@ -32,8 +33,14 @@ def _adv_fill(torch, rng, p, mode):
         vals = [rng.choice(pm.SMALL) for _ in range(n)]
     else:
         vals = [rng.choice(pm.ADV) for _ in range(n)]
-    with torch.no_grad():
-        p.copy_(torch.tensor(vals, dtype=p.dtype).reshape(p.shape))
+    t = torch.tensor(vals, dtype=p.dtype).reshape(p.shape)
+    if via == 'data.copy_':
+        p.data.copy_(t)
+    elif via == 'data=':
+        p.data = t
+    else:
+        with torch.no_grad():
+            p.copy_(t)
     return vals
 
 
@@ -81,9 +88,21 @@ def net_case(torch, seed, mode):
             for nm, q in orig.named_nas_parameters():
                 if q.requires_grad:
                     _adv_fill(torch, rng, q, rng.choice(['zero', 'neg', 'adv']))
+        # the sizes follow the parameter values at the time of the call: an earlier summary() / export() under other values
+        # (then the values re-written through .data, the clip / threshold idiom) must leave nothing behind
+        o['pre_round'] = rng.random() < 0.35
+        via = 'copy_'
+        if o['pre_round']:
+            for nm, q in p.named_nas_parameters():
+                if q.requires_grad:
+                    _adv_fill(torch, rng, q, rng.choice(['adv', 'zero', 'neg']))
+            p.summary()
+            if rng.random() < 0.6:
+                p.export()
+            via = rng.choice(['data.copy_', 'data='])
         for nm, q in p.named_nas_parameters():
             if q.requires_grad:
-                _adv_fill(torch, rng, q, mode)
+                _adv_fill(torch, rng, q, mode, via)
         # values can also reach the mask tensor of a FROZEN features masker (it keeps its state_dict key: warm start from
         # a checkpoint of a search in which that width was searchable): the width must stay full
         if rng.random() < 0.5:
@@ -218,6 +237,8 @@ def run(ctx):
             ctx.dist['net:deep-copied-snapshot'] += 1
         if o.get('phase'):
             ctx.dist['net:phase:' + o['phase']] += 1
+        if o.get('pre_round'):
+            ctx.dist['net:earlier-summary/export-under-other-values-then-.data-writes'] += 1
         if 'dense-stem' in o.get('spec', {}).get('productions', []):
             ctx.dist['net:dense-stem (input concatenated with a convolution of itself)'] += 1
         for key, info in o['fails']:
